@@ -95,3 +95,11 @@ impl Rng {
         }
     }
 }
+
+impl Rng {
+    /// decimals / exponents: half of the time one of the usual values given, otherwise ANY row of the program's 24-row
+    /// power-of-ten table (and, where `over` allows, one or two past its end)
+    pub fn dec_wide(&mut self, usual: &[u8], over: u8) -> u8 {
+        if self.chance(1, 2) { *self.pick(usual) } else { self.below(24 + over as u64) as u8 }
+    }
+}
